@@ -46,8 +46,8 @@ Print Assumptions C17_block_lists_are_the_tree_blocks.
         content; z = 0 / auto positioned descendants in tree order; positive z ascending; outlines).
         wf: the tree has the shape layout produces (children of line/inline boxes are inline-level, tables hold
         row groups > rows > cells, a block container holds line boxes or blocks), boxes painted as contexts are
-        of the classes draw_stacking_context paints, and no context-forming box carries a z-index that does
-        not apply to it; the three exclusions are refuted below. ---- *)
+        of the classes draw_stacking_context paints; the exclusion (table rows / row groups painted as contexts)
+        is refuted below. ---- *)
 Theorem C17_appendix_E_order (t : box) :
   wf t = true -> paint_ctx (from_box t) = appendix_E (2 * S (height t)) SRoot t.
 Proof. exact (appendix_E_order t). Qed.
@@ -70,7 +70,7 @@ Theorem C17_z_ties_by_tree_order (t : box) :
   Forall (fun x => 0 < ctx_z x) (ctx_pos c) /\
   StronglySorted (fun a b => ctx_z a <= ctx_z b) (ctx_neg c ++ ctx_zero c ++ ctx_pos c) /\
   (forall k, filter (fun x => ctx_z x =? k) (ctx_neg c ++ ctx_zero c ++ ctx_pos c) =
-             map node_of (filter (fun x => z_of (binfo x) =? k) cs)).
+             map node_of (filter (fun x => zkey x =? k) cs)).
 Proof.
   intros c cs. destruct (z_ties_by_tree_order t) as [H1 [_ [H3 [H4 [H5 [H6 H7]]]]]].
   repeat split; assumption.
@@ -138,11 +138,23 @@ Theorem C17_grid_context_paints_own_background (b : box) :
 Proof. exact (grid_context_own_background b). Qed.
 Print Assumptions C17_grid_context_paints_own_background.
 
-Theorem C17_z_index_applied_to_non_positioned_refuted :
-  exists t, before (appendix_E_paint t) 1 2 = true /\ before (paint_ctx (from_box t)) 2 1 = true /\
-            wf_kids t = true.
-Proof. exact z_index_applied_to_non_positioned. Qed.
-Print Assumptions C17_z_index_applied_to_non_positioned_refuted.
+(* (former finding F105, fixed) z-index is ignored where it does not apply: the z_index of the context built for
+   any box is its z-index if the box is positioned or a flex / grid item, else 0 - exactly the key of the
+   specification, so the order theorem needs no hypothesis on z-index any more *)
+Theorem C17_z_index_only_where_it_applies (b : box) :
+  ctx_z (from_box b) = (if z_applies (binfo b) then z_of (binfo b) else 0).
+Proof. exact (ctx_z_from_box b). Qed.
+Print Assumptions C17_z_index_only_where_it_applies.
+
+(* (former finding F106, fixed) a cell of a collapsed-border table painted as a context paints its background and
+   no border of its own; every other box of the point 2 classes paints background then border *)
+Theorem C17_context_own_background_and_border (b : box) :
+  point2_class (knd (binfo b)) = true ->
+  ctx_own_bg (from_box b) =
+  EPaint (bid (binfo b)) LBg ::
+  (if is_cell (knd (binfo b)) && col (binfo b) then [] else [EPaint (bid (binfo b)) LBorder]).
+Proof. exact (context_own_background b). Qed.
+Print Assumptions C17_context_own_background_and_border.
 
 (* ================================================================================================
    Rounded corners: Box.rounded_box(bt, br, bb, bl) (model/C17Radius.v) - the curves used for the inner edge of
@@ -159,19 +171,21 @@ Theorem C17_scaled_radii_never_overlap W H R bt br bb bl :
 Proof. exact (scaled_radii_never_overlap W H R bt br bb bl). Qed.
 Print Assumptions C17_scaled_radii_never_overlap.
 
-(* inner radius = outer radius - width of the adjacent side, floored at 0, per axis, each corner with ITS OWN two
-   sides (top-left: left/top, top-right: right/top, bottom-right: right/bottom, bottom-left: left/bottom), times
-   one common factor f <= 1 that is 1 when these radii fit the inner rectangle *)
+(* the code follows CSS Backgrounds 3: the specified radii times k = the 5.5 overlap factor of the border box, minus the
+   width of the adjacent side, floored at 0, per axis, each corner with ITS OWN two sides (top-left: left/top,
+   top-right: right/top, bottom-right: right/bottom, bottom-left: left/bottom) - that is css_inner_fit - times one
+   common factor f <= 1 on the inner rectangle that is 1 when these radii fit *)
 Theorem C17_inner_radius_is_outer_minus_own_sides W H R bt br bb bl :
   let o := rounded_box W H R bt br bb bl in
-  let f := ratio (W - bl - br) (H - bt - bb) (inner_raw R bt br bb bl) in
+  let k := ratio W H R in
+  let f := ratio (W - bl - br) (H - bt - bb) (inner_raw (css_outer W H R) bt br bb bl) in
   dx o = bl /\ dy o = bt /\ rw o = W - bl - br /\ rh o = H - bt - bb /\
-  tlx (rr o) = Qmax 0 (tlx R - bl) * f /\ tly (rr o) = Qmax 0 (tly R - bt) * f /\
-  trx (rr o) = Qmax 0 (trx R - br) * f /\ try_ (rr o) = Qmax 0 (try_ R - bt) * f /\
-  brx (rr o) = Qmax 0 (brx R - br) * f /\ bry (rr o) = Qmax 0 (bry R - bb) * f /\
-  blx (rr o) = Qmax 0 (blx R - bl) * f /\ bly (rr o) = Qmax 0 (bly R - bb) * f /\
-  f <= 1 /\
-  (fits (W - bl - br) (H - bt - bb) (inner_raw R bt br bb bl) -> f == 1).
+  tlx (rr o) = Qmax 0 (tlx R * k - bl) * f /\ tly (rr o) = Qmax 0 (tly R * k - bt) * f /\
+  trx (rr o) = Qmax 0 (trx R * k - br) * f /\ try_ (rr o) = Qmax 0 (try_ R * k - bt) * f /\
+  brx (rr o) = Qmax 0 (brx R * k - br) * f /\ bry (rr o) = Qmax 0 (bry R * k - bb) * f /\
+  blx (rr o) = Qmax 0 (blx R * k - bl) * f /\ bly (rr o) = Qmax 0 (bly R * k - bb) * f /\
+  k <= 1 /\ f <= 1 /\ rr o = css_inner_fit W H R bt br bb bl /\
+  (fits (W - bl - br) (H - bt - bb) (inner_raw (css_outer W H R) bt br bb bl) -> f == 1).
 Proof. exact (inner_radius_is_outer_minus_own_sides W H R bt br bb bl). Qed.
 Print Assumptions C17_inner_radius_is_outer_minus_own_sides.
 
@@ -190,24 +204,44 @@ Theorem C17_rounded_box_mirror_v W H R bt br bb bl :
 Proof. exact (rounded_box_mirror_v W H R bt br bb bl). Qed.
 Print Assumptions C17_rounded_box_mirror_v.
 
-(* the inner curve lies inside the outer curve when nothing is scaled: at every corner the inner ellipse has the
-   centre of the outer one and radii not larger (so it is inside, C17_concentric_ellipse_inside), or the corner
-   is square with its vertex beyond the extent of the outer curve on one axis *)
+(* (former finding F162, fixed) the inner curve follows the outer curve, overlapping specified radii included:
+   Ro = the used outer radii (specified radii scaled by 5.5, what rounded_border_box returns).  Whenever the inner
+   radii taken from Ro fit the inner rectangle, at every corner the inner ellipse has the centre of the outer one
+   and radii not larger (so it is inside, C17_concentric_ellipse_inside), or the corner is square with its vertex
+   beyond the extent of the outer curve on one axis.  They always fit when no radius is clipped at 0. *)
 Theorem C17_inner_curve_inside_outer W H R bt br bb bl :
   0 <= bt -> 0 <= br -> 0 <= bb -> 0 <= bl ->
-  fits (W - bl - br) (H - bt - bb) (inner_raw R bt br bb bl) ->
+  let Ro := css_outer W H R in
+  fits (W - bl - br) (H - bt - bb) (inner_raw Ro bt br bb bl) ->
   let i := rr (rounded_box W H R bt br bb bl) in
-  radii_eq i (inner_raw R bt br bb bl) /\
-  (0 < tlx i -> 0 < tly i -> bl + tlx i == tlx R /\ bt + tly i == tly R /\ tlx i <= tlx R /\ tly i <= tly R) /\
-  (0 < trx i -> 0 < try_ i -> br + trx i == trx R /\ bt + try_ i == try_ R /\ trx i <= trx R /\ try_ i <= try_ R) /\
-  (0 < brx i -> 0 < bry i -> br + brx i == brx R /\ bb + bry i == bry R /\ brx i <= brx R /\ bry i <= bry R) /\
-  (0 < blx i -> 0 < bly i -> bl + blx i == blx R /\ bb + bly i == bly R /\ blx i <= blx R /\ bly i <= bly R) /\
-  (tlx i == 0 \/ tly i == 0 -> tlx R <= bl \/ tly R <= bt) /\
-  (trx i == 0 \/ try_ i == 0 -> trx R <= br \/ try_ R <= bt) /\
-  (brx i == 0 \/ bry i == 0 -> brx R <= br \/ bry R <= bb) /\
-  (blx i == 0 \/ bly i == 0 -> blx R <= bl \/ bly R <= bb).
+  radii_eq i (inner_raw Ro bt br bb bl) /\
+  (0 < tlx i -> 0 < tly i -> bl + tlx i == tlx Ro /\ bt + tly i == tly Ro /\ tlx i <= tlx Ro /\ tly i <= tly Ro) /\
+  (0 < trx i -> 0 < try_ i -> br + trx i == trx Ro /\ bt + try_ i == try_ Ro /\ trx i <= trx Ro /\ try_ i <= try_ Ro) /\
+  (0 < brx i -> 0 < bry i -> br + brx i == brx Ro /\ bb + bry i == bry Ro /\ brx i <= brx Ro /\ bry i <= bry Ro) /\
+  (0 < blx i -> 0 < bly i -> bl + blx i == blx Ro /\ bb + bly i == bly Ro /\ blx i <= blx Ro /\ bly i <= bly Ro) /\
+  (tlx i == 0 \/ tly i == 0 -> tlx Ro <= bl \/ tly Ro <= bt) /\
+  (trx i == 0 \/ try_ i == 0 -> trx Ro <= br \/ try_ Ro <= bt) /\
+  (brx i == 0 \/ bry i == 0 -> brx Ro <= br \/ bry Ro <= bb) /\
+  (blx i == 0 \/ bly i == 0 -> blx Ro <= bl \/ bly Ro <= bb).
 Proof. exact (inner_curve_inside_outer W H R bt br bb bl). Qed.
 Print Assumptions C17_inner_curve_inside_outer.
+
+Theorem C17_inner_radii_fit_when_not_clipped W H R bt br bb bl :
+  0 <= W -> 0 <= H -> nonneg R ->
+  let Ro := css_outer W H R in
+  bl <= tlx Ro -> bt <= tly Ro -> br <= trx Ro -> bt <= try_ Ro ->
+  br <= brx Ro -> bb <= bry Ro -> bl <= blx Ro -> bb <= bly Ro ->
+  fits (W - bl - br) (H - bt - bb) (inner_raw Ro bt br bb bl).
+Proof. exact (inner_fits_when_not_clipped W H R bt br bb bl). Qed.
+Print Assumptions C17_inner_radii_fit_when_not_clipped.
+
+Theorem C17_border_box_has_the_used_outer_radii W H R :
+  0 <= W -> 0 <= H -> nonneg R ->
+  radii_eq (rr (rounded_border_box W H R)) (css_outer W H R) /\ fits W H (css_outer W H R).
+Proof.
+  intros Hw Hh N. split; [exact (border_box_radii W H R Hw Hh N)|exact (proj2 (css_outer_fits W H R Hw Hh N))].
+Qed.
+Print Assumptions C17_border_box_has_the_used_outer_radii.
 
 Theorem C17_concentric_ellipse_inside rx ry Rx Ry x y :
   0 < rx -> rx <= Rx -> 0 < ry -> ry <= Ry ->
@@ -216,15 +250,16 @@ Theorem C17_concentric_ellipse_inside rx ry Rx Ry x y :
 Proof. exact (concentric_inside rx ry Rx Ry x y). Qed.
 Print Assumptions C17_concentric_ellipse_inside.
 
-(* refuted (finding): when the outer radii overlap, the inner radii are taken from the unscaled radii and
-   rescaled separately: a point of the inner curve is outside the outer curve, and the radii are not the CSS ones *)
-Theorem C17_inner_curve_leaves_outer_when_radii_overlap_refuted :
+(* the limit of C17_inner_curve_inside_outer (not a finding: CSS is silent on inner radii that overlap): with a radius
+   clipped at 0 beside one that no longer fits, the overlap check on the inner rectangle shrinks the inner curve
+   towards the inner corner and a point of it is outside the outer curve, although the outer radii do not overlap *)
+Theorem C17_inner_rescale_can_leave_outer_curve :
   exists W H R bt br bb bl px py,
-    on_tr_curve (rounded_box W H R bt br bb bl) px py = true /\
-    outside_tr_curve (rounded_border_box W H R) px py = true /\
-    radii_eqb (rr (rounded_box W H R bt br bb bl)) (css_inner_fit W H R bt br bb bl) = false.
-Proof. exact inner_curve_leaves_outer_when_radii_overlap. Qed.
-Print Assumptions C17_inner_curve_leaves_outer_when_radii_overlap_refuted.
+    on_tl_curve (rounded_box W H R bt br bb bl) px py = true /\
+    outside_tl_curve (rounded_border_box W H R) px py = true /\
+    Qle_bool 1 (ratio W H R) = true.
+Proof. exact inner_rescale_can_leave_outer_curve. Qed.
+Print Assumptions C17_inner_rescale_can_leave_outer_curve.
 
 (* ---- Box.rounded_box and its four callers as REGENERATED from weasyprint/formatting_structure/boxes.py on every
    run (gen/GenBoxes.v, interpreter base/Py.v), with border_box_x / border_box_y / border_width / border_height /
